@@ -12,14 +12,29 @@ def stub_render(ex):
 
 
 def main(tier):
-    ck = Check('C13', tier, ['ppu'], bodies='image,image/color,math/bits')
+    ck = Check('C13', tier, None)
+    # the inductive harnesses name the PPU's internal timing fields; if they do not compile against this tree the check falls
+    # back to the black-box harness (exported register interface only)
+    whitebox = ck.use_build(['ppu'], bodies='image,image/color,math/bits', optional=True) is not False
+    if not whitebox:
+        ck.builds.pop()
+        ck.notes.append('white-box harnesses do not compile against this tree (internal representation changed); black-box harness only')
+        keep = ('common.go', 'c13_bb.go', 'refmode.go')
+        import glob as _g
+        excl = tuple('ppu/' + os.path.basename(f) for f in _g.glob(os.path.join(VERIF, 'harness', 'ppu', '*.go')) if os.path.basename(f) not in keep)
+        ck.use_build(['ppu'], bodies='image,image/color,math/bits', exclude=excl)
     ck.bounds = {'step': 'one machine cycle / one LCDC write from every (ticks, mode, ly, firstLine, enabled) state satisfying lcdInv, all other PPU/OAM/interrupt state arbitrary',
                  'induction': 'lcdInv holds after New() and is preserved by EndMachineCycle and WriteLCDC, so the per-cycle LY/mode relation holds at every cycle of every on/off schedule',
                  'bounded cross-check': 'the first 240 machine cycles after New() and after an off/on switch at a symbolic point, executed with a concrete cycle count: LY/mode equal the closed form with line 0 lasting 112 cycles',
                  'LY writes': 'a CPU write to FF44 may clear LY at any time (the invariant allows LY = 0); the next machine cycle must recompute it',
+                 'black box': 'two whole frames (35112 cycles, concrete count) from power-up and after an off/on switch k cycles later (k configured), LY and STAT mode at every cycle against the documented schedule, through the exported register interface only; this part still runs when the internal representation changes',
                  'outside': 'LY/STAT seen mid-instruction by the CPU (lcdon_timing)'}
     ck.assumptions = ['lcdInv (proved inductive)']
     ck.stubs_used.append('PPU.renderPixel / checkOverlappingSprites -> no-op (their frame condition is an obligation of C15)')
+    bb = [('ppu', 'VerifLcdBlackBox', {'k': k}) for k in ((-1, 0, 20, 62, 114, 16416) if tier == 'quick' else (-1, 0, 1, 19, 20, 21, 60, 61, 62, 63, 113, 114, 115, 500, 16415, 16416, 17555, 17556, 20000))]
+    ck.run(bb, timeout_ms=600000, setup=stub_render, max_unwind=300)
+    if not whitebox:
+        ck.finish(explanation='black-box fallback: two whole frames after power-up / after an off-on switch at a configured cycle, LY and mode compared with the documented schedule at every cycle')
     ck.run([('ppu', e, {}) for e in ('VerifLcdInit', 'VerifLcdStep', 'VerifLcdSwitch')] + [('ppu', 'VerifLcdFirstLines', {'switch': s}) for s in (0, 1)] + [('ppu', 'VerifLcdRegWrite', {'reg': r}) for r in range(3)], timeout_ms=600000, setup=stub_render, max_unwind=300)
     ck.finish(explanation='inductive per-cycle check of PPU.EndMachineCycle/WriteLCDC: LY = t/114 and mode = documented mode of frame index t, frame length 17556, first line after switch-on 2 cycles shorter, immediate off/on behaviour')
 
